@@ -507,6 +507,89 @@ fn zero_sized_cases(r: &mut Report, seed: u64) {
     }
 }
 
+/// History behind the erased forms (model-free): wrapped implementations that *panic* (the panic is caught by the
+/// caller, as a rayon worker or a test harness would) and deeply nested erased forms must leave no trace - afterwards an
+/// erased call still is the wrapped call: same value, same draws, the wrapped implementation called exactly once.
+fn panic_history_cases(r: &mut Report, seed: u64) {
+    use std::sync::atomic::{AtomicUsize, Ordering};
+    struct M { calls: AtomicUsize }
+    impl Mutator<i64> for M {
+        type Error = ProbeErr;
+        fn mutate<R: Rng + ?Sized>(&self, g: i64, rng: &mut R) -> Result<i64, ProbeErr> {
+            self.calls.fetch_add(1, Ordering::SeqCst);
+            if g == -1 { panic!("the wrapped mutator panics"); }
+            if g == -2 { return Err(ProbeErr { id: 5, code: 9 }); }
+            Ok(g ^ (rng.next_u64() & 0xFFFF) as i64)
+        }
+    }
+    impl Operator<i64> for M {
+        type Output = i64;
+        type Error = ProbeErr;
+        fn apply<R: Rng + ?Sized>(&self, g: i64, rng: &mut R) -> Result<i64, ProbeErr> { self.mutate(g, rng) }
+    }
+    impl Composable for M {}
+    let base = SplitMix::derive(seed ^ 0x9A71C, 1);
+    let concrete = |g: i64| -> (Result<i64, String>, u64) { let m = M { calls: AtomicUsize::new(0) }; let mut rng = base.clone(); let v = m.mutate(g, &mut rng).map_err(|e| e.to_string()); (v, rng.next_u64()) };
+    let prev = std::panic::take_hook();
+    std::panic::set_hook(Box::new(|_| {}));
+    let mut bad: Vec<String> = vec![];
+    {
+        let m = M { calls: AtomicUsize::new(0) };
+        let by_ref: &dyn DynMutator<i64, ProbeErr> = &m;
+        let boxed: Box<dyn DynMutator<i64, ProbeErr>> = Box::new(M { calls: AtomicUsize::new(0) });
+        let arc: Arc<dyn DynMutator<i64, ProbeErr> + Send + Sync> = Arc::new(M { calls: AtomicUsize::new(0) });
+        let op_box: Box<dyn DynOperator<i64, ProbeErr, Output = i64>> = Box::new(M { calls: AtomicUsize::new(0) });
+        let mut caught = 0;
+        for k in 0..400 {
+            let mut rng = base.clone();
+            let res = std::panic::catch_unwind(std::panic::AssertUnwindSafe(|| match k % 4 {
+                0 => by_ref.mutate(-1, &mut rng).map_err(|e| e.to_string()),
+                1 => boxed.mutate(-1, &mut rng).map_err(|e| e.to_string()),
+                2 => arc.mutate(-1, &mut rng).map_err(|e| e.to_string()),
+                _ => op_box.apply(-1, &mut rng).map_err(|e| e.to_string()),
+            }));
+            if res.is_err() { caught += 1; }
+        }
+        if caught != 400 { bad.push(format!("a panic of the wrapped implementation did not come through the erased form ({caught} of 400 did)")); }
+        // errors in between, too
+        for _ in 0..600 { let mut rng = base.clone(); let _ = boxed.mutate(-2, &mut rng); let _ = op_box.apply(-2, &mut rng); }
+        for g in [5i64, 0, 123_456] {
+            let want = concrete(g);
+            let before = m.calls.load(Ordering::SeqCst);
+            let mut rng = base.clone();
+            let got = (by_ref.mutate(g, &mut rng).map_err(|e| e.to_string()), rng.next_u64());
+            if got != want || m.calls.load(Ordering::SeqCst) != before + 1 { bad.push(format!("after 400 caught panics and 1200 errors behind erased forms on this thread, &dyn DynMutator on {g} gives {:?}, the mutator itself {:?} (wrapped calls: {})", got.0, want.0, m.calls.load(Ordering::SeqCst) - before)); }
+            for (name, res) in [("Box<dyn DynMutator>", { let mut rng = base.clone(); (boxed.mutate(g, &mut rng).map_err(|e| e.to_string()), rng.next_u64()) }),
+                                ("Arc<dyn DynMutator + Send + Sync>", { let mut rng = base.clone(); (arc.mutate(g, &mut rng).map_err(|e| e.to_string()), rng.next_u64()) }),
+                                ("Box<dyn DynOperator>", { let mut rng = base.clone(); (op_box.apply(g, &mut rng).map_err(|e| e.to_string()), rng.next_u64()) })] {
+                if res != want { bad.push(format!("after caught panics behind erased forms, {name} on {g} gives {:?}, the wrapped implementation {:?}", res.0, want.0)); }
+            }
+        }
+        // an error still comes through as the error
+        let mut rng = base.clone();
+        if boxed.mutate(-2, &mut rng).map_err(|e| e.to_string()) != Err(ProbeErr { id: 5, code: 9 }.to_string()) { bad.push("the wrapped error no longer comes through the erased form".into()); }
+    }
+    // erased forms nested 300 deep are still the wrapped implementation
+    {
+        let mut nested: Box<dyn DynMutator<i64, ProbeErr>> = Box::new(M { calls: AtomicUsize::new(0) });
+        for _ in 0..300 { nested = Box::new(nested); }
+        let want = concrete(77);
+        let mut rng = base.clone();
+        let got = (nested.mutate(77, &mut rng).map_err(|e| e.to_string()), rng.next_u64());
+        if got != want { bad.push(format!("a mutator behind 300 nested erased forms gives {:?} on 77, the mutator itself {:?}", got.0, want.0)); }
+        let mut nested_op: Box<dyn DynOperator<i64, ProbeErr, Output = i64>> = Box::new(M { calls: AtomicUsize::new(0) });
+        for _ in 0..300 { nested_op = Box::new(nested_op); }
+        let mut rng = base.clone();
+        let got = (nested_op.apply(77, &mut rng).map_err(|e| e.to_string()), rng.next_u64());
+        if got != want { bad.push(format!("an operator behind 300 nested erased forms gives {:?} on 77, the operator itself {:?}", got.0, want.0)); }
+    }
+    std::panic::set_hook(prev);
+    r.case("erased forms after caught panics / deep nesting", true);
+    for what in bad.into_iter().take(6) {
+        r.violate(json!({"case": "erased Mutator / Operator forms: 400 caught panics and 1200 errors of wrapped implementations on one thread, then ordinary calls; 300 nested erased forms", "what": what}));
+    }
+}
+
 pub fn run(cfg: &Cfg) -> Report {
     let selftest: u8 = std::env::var("UEC_SELFTEST").ok().and_then(|s| s.parse().ok()).unwrap_or(0);
     let seed = cfg.seed;
@@ -527,6 +610,7 @@ pub fn run(cfg: &Cfg) -> Report {
         }
     });
     zero_sized_cases(&mut rep, seed);
+    panic_history_cases(&mut rep, seed);
     // ---- inventory: proc-macro source vs Lean model vs what was compiled here
     let mut d = crate::driver::Driver::spawn(&cfg.driver);
     let model: Vec<String> = d.ask("ops flavours").split(',').map(|s| s.to_string()).collect();
